@@ -159,7 +159,7 @@ func (w *Writer) writeEPInputStruct(
 	stage ir.ShaderStage,
 	epName string,
 ) (*entryPointBinding, error) {
-	structName := fmt.Sprintf("%sInput_%s", stageName(stage), epName)
+	structName := w.namer.call(fmt.Sprintf("%sInput_%s", stageName(stage), epName))
 
 	var fakeMembers []epStructMember
 	for i, arg := range fn.Arguments {
@@ -204,7 +204,7 @@ func (w *Writer) writeEPOutputStruct(
 	epName string,
 	fragEP *FragmentEntryPoint,
 ) (*entryPointBinding, error) {
-	structName := fmt.Sprintf("%sOutput_%s", stageName(stage), epName)
+	structName := w.namer.call(fmt.Sprintf("%sOutput_%s", stageName(stage), epName))
 
 	resultType := fn.Result.Type
 	if int(resultType) >= len(w.module.Types) {
